@@ -48,7 +48,40 @@ func randomScenario(seed int64) Scenario {
 		n = n - st.Drop + st.Add
 		sc.Plan = append(sc.Plan, st)
 	}
+	randomClasses(&sc, rng)
 	return sc
+}
+
+// randomClasses gives the scenario a pool of 1-3 classes, each mentioned by about a third of all blocks of all
+// versions (so that branches re-declare, drop, or merely use a class), and picks the wiring.
+func randomClasses(sc *Scenario, rng *rand.Rand) {
+	tags := sc.InitLen
+	for _, st := range sc.Plan {
+		tags += st.Add
+	}
+	for k := 1 + rng.Intn(3); k > 0; k-- {
+		cs := ClassSpec{Kind: []string{"cairo0", "sierra"}[rng.Intn(2)]}
+		for t := 1; t <= tags; t++ {
+			if rng.Intn(3) == 0 {
+				cs.Tags = append(cs.Tags, t)
+			}
+		}
+		sc.Classes = append(sc.Classes, cs)
+	}
+	sc.Prod = rng.Intn(2) == 0
+	reorgs := false
+	for _, st := range sc.Plan {
+		reorgs = reorgs || st.Drop > 0
+	}
+	if !reorgs { // (see ClassSpec)
+		cs := ClassSpec{Kind: "implicit", Tags: []int{1 + rng.Intn(tags)}}
+		for t := cs.Tags[0] + 1; t <= tags; t++ {
+			if rng.Intn(3) == 0 {
+				cs.Tags = append(cs.Tags, t)
+			}
+		}
+		sc.Classes = append(sc.Classes, cs)
+	}
 }
 
 // replayScenario turns what a run actually did into a script.
@@ -188,6 +221,12 @@ func TestSyncRecord(t *testing.T) {
 		nEvents += len(r.events)
 		for k, v := range counts {
 			out.Count("ev_"+k, v)
+		}
+		for k, v := range r.cstats {
+			out.Count(k, v)
+		}
+		if sc.Prod {
+			out.Count("runs_production_data_source", 1)
 		}
 		if counts["Reverted"] > 0 {
 			out.Count("runs_with_reverts", 1)
